@@ -92,11 +92,5 @@ pub fn run_case(env: &Env, ctx: &mut Ctx, idx: u64) {
         Ok(Err(m)) => ctx.violation("traversal", "", &m, witness(&m)),
         Err(p) => ctx.violation("traversal-panic", "", &p.0, witness(&p.0)),
     }
-    if ctx.counters.get("trees").copied().unwrap_or(0) % 16 == 1 {
-        for n in &tree {
-            if !matches!(n, RefNode::Locate(_)) {
-                ctx.seen("node_kinds", &n.to_string());
-            }
-        }
-    }
+    ctx.seen_kinds(&tree);
 }
